@@ -201,6 +201,10 @@ func (impl Implementation) Dhseqr(job lapack.SchurJob, compz lapack.SchurComp, n
 		nl = 49
 	)
 
+	// The paths below that do not call Dlaqr04 need no more workspace
+	// than the minimum.
+	work[0] = float64(n)
+
 	// Copy eigenvalues isolated by Dgebal.
 	for i := 0; i < ilo; i++ {
 		wr[i] = h[i*ldh+i]
